@@ -140,3 +140,93 @@ Theorem C07_run_monotone :
   forall (fuel : nat) (e : exec), mono e (fst (run fuel e)).
 Proof. exact run_mono. Qed.
 Print Assumptions C07_run_monotone.
+
+(* ==== appended by tools/mkprops.py (APPEND table) ==== *)
+
+Require Import LV.Base LV.VV LV.VVFacts LV.Path LV.PathSpec LV.PathTerm LV.PathDistinct LV.PathApi LV.Prog LV.Objects LV.Exec LV.Atomic LV.Ops LV.Check LV.ExecFacts LV.SyncMono LV.ExclFacts.
+
+(* MUTUAL EXCLUSION AS A GLOBAL INVARIANT of every run of every program (ExclFacts.v) *)
+(* the exclusion invariant (lock word = the one thread inside; a write guard excludes every other guard; registered readers own guards) holds in the final state of every non-panicking run; every intermediate state is such a final state for smaller fuel *)
+Theorem C07_run_excl_inv :
+  forall (fuel : nat) (p : prog) (pa : path),
+       not_panic (snd (run fuel (init_exec p pa))) -> excl_inv (fst (run fuel (init_exec p pa))).
+Proof. exact run_excl_inv. Qed.
+Print Assumptions C07_run_excl_inv.
+
+(* if two distinct threads own a guard of one mutex, one of them is inside Condvar::wait and has given the mutex up (its next step is the re-acquisition) *)
+Theorem C07_mutex_exclusion :
+  forall (fuel : nat) (p : prog) (pa : path) (e : exec) (r : iter_end) 
+         (m : nat) (s : mutex_state) (a b : nat) (ta tb : thread),
+       run fuel (init_exec p pa) = (e, r) ->
+       not_panic r ->
+       get_mutex e m = Some s ->
+       a <> b ->
+       get_thread e a = Some ta ->
+       get_thread e b = Some tb ->
+       In (GMutex, m) (t_guards ta) ->
+       In (GMutex, m) (t_guards tb) -> released (t_cont ta) m \/ released (t_cont tb) m.
+Proof. exact mutex_exclusion. Qed.
+Print Assumptions C07_mutex_exclusion.
+
+(* the lock word names exactly the thread that is inside the mutex *)
+Theorem C07_mutex_lock_owner :
+  forall (e : exec) (m : nat) (s : mutex_state) (t : nat),
+       excl_inv e ->
+       get_mutex e m = Some s ->
+       mx_lock s = Some t -> exists th : thread, get_thread e t = Some th /\ inside th m.
+Proof. exact mutex_lock_owner. Qed.
+Print Assumptions C07_mutex_lock_owner.
+
+(* an acquisition that hands out a guard ran on a free mutex *)
+Theorem C07_lock_acquire_only_when_free :
+  forall (e : exec) (me m : nat) (mode : lockmode) (e' : exec) (th th' : thread),
+       exec_micro e me (MLockPost m mode) = MOk e' ->
+       get_thread e me = Some th ->
+       get_thread e' me = Some th' ->
+       t_guards th' <> t_guards th ->
+       exists s : mutex_state, get_mutex e m = Some s /\ mx_lock s = None.
+Proof. exact lock_acquire_only_when_free. Qed.
+Print Assumptions C07_lock_acquire_only_when_free.
+
+(* while a thread is inside, another thread's acquisition step can only be a failing try_lock *)
+Theorem C07_lock_no_second_owner :
+  forall (e : exec) (me m : nat) (mode : lockmode) (e' : exec) (s : mutex_state) 
+         (b : nat) (tb : thread),
+       excl_inv e ->
+       get_mutex e m = Some s ->
+       get_thread e b = Some tb ->
+       inside tb m ->
+       b <> me ->
+       exec_micro e me (MLockPost m mode) = MOk e' ->
+       mode = LMTry /\ e' = log_op e me (RBool false).
+Proof. exact lock_no_second_owner. Qed.
+Print Assumptions C07_lock_no_second_owner.
+
+(* a write guard never coexists with another thread's read or write guard on the same RwLock *)
+Theorem C07_rwlock_writer_excludes :
+  forall (fuel : nat) (p : prog) (pa : path) (e : exec) (res : iter_end) 
+         (r a b : nat) (ta tb : thread),
+       run fuel (init_exec p pa) = (e, res) ->
+       not_panic res ->
+       a <> b ->
+       get_thread e a = Some ta ->
+       get_thread e b = Some tb ->
+       In (GWrite, r) (t_guards ta) ->
+       ~ In (GRead, r) (t_guards tb) /\ ~ In (GWrite, r) (t_guards tb).
+Proof. exact rwlock_writer_excludes. Qed.
+Print Assumptions C07_rwlock_writer_excludes.
+
+(* a thread never owns two guards of one mutex (recursive lock deadlocks, recursive try_lock fails) *)
+Theorem C07_mutex_guard_once :
+  forall (e : exec) (t : nat) (th : thread) (m : nat),
+       excl_inv e -> get_thread e t = Some th -> gcount GMutex m (t_guards th) <= 1.
+Proof. exact mutex_guard_once. Qed.
+Print Assumptions C07_mutex_guard_once.
+
+(* witness (computed): after a recursive read the runtime's reader SET and the std lock's guard COUNT disagree and the wrapper's `RwLock state corrupt` panic is what the run ends with *)
+Theorem C07_recursive_read_corrupt :
+  snd (xstate p_rr 17) = IterPanic PanicRwCorrupt /\
+       snd (xstate p_rr 1000) = IterPanic PanicRwCorrupt.
+Proof. exact recursive_read_corrupt. Qed.
+Print Assumptions C07_recursive_read_corrupt.
+
